@@ -343,6 +343,7 @@ func c15ConnGone(c *Ctx) {
 		{{Op: "fail", Arg: 5}, {Op: "subscribe", ID: 1, Query: 4}, {Op: "subscribe", ID: 2, Query: 4}},
 		// finding C15-6: a list aliased as __key; the first re-run's diff must not take the process down
 		{{Op: "subscribe", ID: 1, Query: 6}, {Op: "settle"}, {Op: "change", Arg: 3}, {Op: "settle"}, {Op: "change", Arg: 11}, {Op: "settle"}, {Op: "echo", ID: 2}},
+		{{Op: "subscribe", ID: 1, Query: 7}, {Op: "settle"}, {Op: "change", Arg: 3}, {Op: "settle"}, {Op: "change", Arg: 11}, {Op: "settle"}, {Op: "change", Arg: 2}, {Op: "settle"}, {Op: "echo", ID: 2}},
 	}
 	for i, acts := range histories {
 		for _, early := range []bool{false, true} {
